@@ -90,6 +90,10 @@ def gen_table(rng):
     if style == "dominant":
         vals[0] = rng.choice([-1, 1]) * 100.0
     vals.append(-sum(vals))
+    if rng.random() < 0.3:  # exact power-of-two rescaling: tiny and huge tables (the schemes must be scale free)
+        sc = 2.0 ** rng.choice([-200, -120, -60, -45, -36, -20, 20, 60, 200])
+        vals = [v * sc for v in vals]
+        style += "*2^k"
     rng.shuffle(vals)
     if not any(v > 0 for v in vals):
         return gen_table(rng)
